@@ -516,3 +516,26 @@ Proof.
   destruct r as [[[[b1 b2] x1] x2] v]. unfold sanitize_px1, shift_px, swap_px, pb1, pb2, px1, px2, pval. cbn [fst snd].
   destruct (shift1 ob b2 <? shift1 ob b1); reflexivity.
 Qed.
+(* ------------------------------------------------------------ the loader: chunk boundaries do not matter *)
+Lemma all_some_sanitize blocks ob val ta chunks :
+  all_some (map (sanitize_records blocks ob val ta) chunks) = sanitize_records blocks ob val ta (concat chunks).
+Proof.
+  induction chunks as [|c chunks IH]; [now rewrite sanitize_is_map_filter|].
+  cbn [map all_some concat]. rewrite sanitize_app, IH.
+  destruct (sanitize_records blocks ob val ta c), (sanitize_records blocks ob val ta (concat chunks)); reflexivity.
+Qed.
+
+(** `cooler cload pairs`: the stored pixels are aggregate_records of the per-record outputs of the whole
+    input, however the reader cuts it into chunks; the command fails iff some record is an error *)
+Theorem cload_pairs_spec blocks zero_based ta chunks :
+  cload_pairs blocks zero_based ta chunks =
+  match collect (map (sanitize1 blocks (negb zero_based) true ta) (concat chunks)) with
+  | None => None
+  | Some recs => Some (aggregate_records recs)
+  end.
+Proof. unfold cload_pairs. now rewrite all_some_sanitize, sanitize_is_map_filter. Qed.
+
+Corollary cload_pairs_chunking blocks zero_based ta chunks chunks' :
+  concat chunks = concat chunks' ->
+  cload_pairs blocks zero_based ta chunks = cload_pairs blocks zero_based ta chunks'.
+Proof. intros H. now rewrite !cload_pairs_spec, H. Qed.
